@@ -91,8 +91,10 @@ struct Outcome {
 // Wired as tests/common.rs `with_pipeline`: one arena for source-independent data (AST,
 // resolver, persistent runtime data), one separate frame arena; prints what cmd.rs prints.
 fn run_lib(src: &str, filename: &str) -> Outcome {
-    let arena = Arena::new(64 * MEBI).unwrap();
-    let frame = Arena::new(32 * MEBI).unwrap();
+    // same reservation size as the CLI's SCRATCH_ARENA_CAPACITY, so that running out of
+    // arena space is not a difference between the two configurations
+    let arena = Arena::new(256 * MEBI).unwrap();
+    let frame = Arena::new(256 * MEBI).unwrap();
 
     let lexer = Lexer::new(src, &arena);
     let mut parser = Parser::new(lexer, &arena);
@@ -165,6 +167,12 @@ fn panic_text(e: &(dyn std::any::Any + Send)) -> String {
     }
 }
 
+const CHILD_SECONDS: u32 = 20;
+
+fn child_seconds() -> u32 {
+    std::env::var("NSVERIF_CHILD_SECONDS").ok().and_then(|v| v.parse().ok()).unwrap_or(CHILD_SECONDS)
+}
+
 /// Runs `f` in a forked child (an abort inside the interpreter must not take the
 /// harness down).  Returns None when the child exited normally, else a description.
 fn in_child(f: impl FnOnce()) -> Option<String> {
@@ -173,6 +181,9 @@ fn in_child(f: impl FnOnce()) -> Option<String> {
         let pid = libc::fork();
         assert!(pid >= 0, "fork");
         if pid == 0 {
+            // a runaway program must not hang the check: SIGALRM ends the child, the parent
+            // records the signal and the case is treated as inconclusive
+            libc::alarm(child_seconds());
             f();
             let _ = std::io::stdout().flush();
             libc::_exit(0);
@@ -294,6 +305,137 @@ fn wasm_run_source(src: &str, filename: &str) -> String {
     }
 }
 
+// ---------------------------------------------------------------- scripted replica
+// The same entry point, but with the borrows, their conflict arguments, the arena each phase
+// is given and the drop points taken from the script that translator/gen_scratch.py reads
+// out of the *current* wasm/src/lib.rs (GenWiring.wasm_script).  A wiring edit in the source
+// is therefore executed here, not only seen by the proof.  The phase skeleton (parse; stop on
+// any diagnostic; resolve; stop on errors; run; stop on errors; join the output) is the
+// fixed part.
+#[derive(Clone, Copy, Debug)]
+enum Ev {
+    Borrow(Option<usize>),
+    Drop,
+    Parse(usize),
+    Resolve(usize, usize),
+    Run(usize, usize),
+}
+
+fn parse_script(words: &[&str]) -> Vec<Ev> {
+    words
+        .iter()
+        .map(|w| {
+            let nums = |s: &str| -> Vec<usize> { s.split(',').map(|x| x.parse().unwrap()).collect() };
+            match &w[..1] {
+                "B" if *w == "Bn" => Ev::Borrow(None),
+                "B" => Ev::Borrow(Some(w[2..].parse().unwrap())),
+                "D" => Ev::Drop,
+                "P" => Ev::Parse(w[1..].parse().unwrap()),
+                "R" => {
+                    let v = nums(&w[1..]);
+                    Ev::Resolve(v[0], v[1])
+                }
+                "X" => {
+                    let v = nums(&w[1..]);
+                    Ev::Run(v[0], v[1])
+                }
+                _ => panic!("bad script word {w}"),
+            }
+        })
+        .collect()
+}
+
+type Handle = Option<Box<ScratchArena<'static>>>;
+
+fn aref(h: &Handle) -> &'static Arena {
+    let a: &Arena = h.as_ref().expect("script uses a dropped borrow");
+    // the ScratchArena lives in a Box until the script drops it; the phases that use it are
+    // leaked, never run again, and own nothing outside the arenas
+    unsafe { &*std::ptr::from_ref(a) }
+}
+
+fn scripted_run_source(script: &[Ev], cap: usize, src: &str, filename: &str) -> String {
+    if let Err(err) = arena::init(cap) {
+        return format!("Failed to initialize arena: {err}");
+    }
+    let src: &'static str = unsafe { &*std::ptr::from_ref(src) };
+    let mut handles: Vec<Handle> = Vec::new();
+    let mut stack: Vec<usize> = Vec::new();
+    let mut root = None;
+    let mut artifacts = None;
+    let mut non_err = String::with_capacity(src.len() / 2);
+    let mut result: Option<String> = None;
+    for ev in script {
+        if result.is_some() {
+            break;
+        }
+        match *ev {
+            Ev::Borrow(c) => {
+                let h = match c {
+                    None => scratch_arena(None),
+                    Some(k) => scratch_arena(Some(aref(&handles[k]))),
+                };
+                stack.push(handles.len());
+                handles.push(Some(Box::new(h)));
+            }
+            Ev::Drop => {
+                let k = stack.pop().expect("script drops more than it borrows");
+                handles[k] = None;
+            }
+            Ev::Parse(h) => {
+                let arena = aref(&handles[h]);
+                let lexer = Lexer::new(src, arena);
+                let parser = Box::leak(Box::new(Parser::new(lexer, arena)));
+                let (r, err) = parser.parse_program();
+                if !err.diagnostics.is_empty() {
+                    result = Some(report_html(&err.render_ansi(src, filename)));
+                }
+                root = Some(r);
+            }
+            Ev::Resolve(t, f) => {
+                let mut resolver = Resolver::with_facts_arena(aref(&handles[t]), aref(&handles[f]));
+                resolver.resolve(root.expect("parse first"));
+                if resolver.errors.has_errors() {
+                    result = Some(report_html(&resolver.errors.render_ansi(src, filename)));
+                    std::mem::forget(resolver);
+                    continue;
+                }
+                if !resolver.errors.diagnostics.is_empty() {
+                    non_err.push_str(&report_html(&resolver.errors.render_ansi(src, filename)));
+                }
+                artifacts = Some(Box::leak(Box::new(resolver.into_artifacts())));
+            }
+            Ev::Run(p, fr) => {
+                let (facts, plan) = &**artifacts.as_ref().expect("resolve first");
+                let mut runtime = Runtime::new(aref(&handles[p]), Some(aref(&handles[fr])));
+                let err = runtime.run_with_analysis(root.expect("parse first"), facts, plan.as_ref());
+                if err.has_errors() {
+                    result = Some(report_html(&err.render_ansi(src, filename)));
+                } else {
+                    if !err.diagnostics.is_empty() {
+                        non_err.push_str(&report_html(&err.render_ansi(src, filename)));
+                    }
+                    let res =
+                        runtime.output.iter().map(ToString::to_string).collect::<Vec<_>>().join("\n");
+                    result = Some(if non_err.is_empty() {
+                        res
+                    } else {
+                        let mut s = non_err.clone();
+                        s.push_str(&res);
+                        s
+                    });
+                }
+                std::mem::forget(runtime);
+            }
+        }
+    }
+    // scope exit (normal or early return): every live borrow drops, newest first
+    while let Some(k) = stack.pop() {
+        handles[k] = None;
+    }
+    result.unwrap_or_default()
+}
+
 /// Offsets and commits of the two scratch arenas as seen through fresh borrows.
 fn scratch_probe() -> (usize, usize, usize, usize) {
     let a = scratch_arena(None);
@@ -301,9 +443,12 @@ fn scratch_probe() -> (usize, usize, usize, usize) {
     (a.offset(), a.verif_commit(), b.offset(), b.verif_commit())
 }
 
-fn wasm_one(id: &str, src: &str, cap: &str, output: &str) {
+fn wasm_one(id: &str, src: &str, cap: &str, output: &str, script: Option<&(usize, Vec<Ev>)>) {
     let c = Capture::begin(cap);
-    let r = panic::catch_unwind(AssertUnwindSafe(|| wasm_run_source(src, "playground.ns")));
+    let r = panic::catch_unwind(AssertUnwindSafe(|| match script {
+        Some((capacity, evs)) => scripted_run_source(evs, *capacity, src, "playground.ns"),
+        None => wasm_run_source(src, "playground.ns"),
+    }));
     let printed = c.end();
     let rec = match r {
         Ok(s) => {
@@ -339,12 +484,16 @@ fn wasm_mode(input: &str, output: &str) -> ExitCode {
     let _ = fs::remove_file(output);
     append(output, "");
     let mut seqs: Vec<(String, Vec<(String, String)>)> = Vec::new();
+    let mut script: Option<(usize, Vec<Ev>)> = None;
     for line in text.lines() {
         let t: Vec<&str> = line.split_whitespace().collect();
         if t.is_empty() {
             continue;
         }
-        if t[0] == "S" {
+        if t[0] == "W" {
+            // W <capacity> <script words>: run the scripted replica instead of the literal copy
+            script = Some((t[1].parse().unwrap(), parse_script(&t[2..])));
+        } else if t[0] == "S" {
             seqs.push((t[1].to_string(), Vec::new()));
         } else if t[0] == "P" && t.len() >= 3 {
             seqs.last_mut().expect("S header first").1.push((t[1].to_string(), unhex(t[2])));
@@ -354,7 +503,8 @@ fn wasm_mode(input: &str, output: &str) -> ExitCode {
         append(output, &format!("S {sid}\n"));
         let died = in_child(|| {
             for (id, src) in progs {
-                wasm_one(id, src, &cap, output);
+                unsafe { libc::alarm(child_seconds()) };
+                wasm_one(id, src, &cap, output, script.as_ref());
             }
         });
         if let Some(why) = died {
